@@ -42,9 +42,10 @@ InWindow(c, b, w) == InGroup(c, b, w.g, w.k) /\ b[3] \in w.axlo .. w.axhi /\ b[4
 ZeroRest(zero, N) == zero /\ N > 1
 
 (* ========================================================================================= *)
-(* Part 2.  Dense model.  sys = [c, axs, tangs, nvox, P]: c a Subsets configuration, axs and   *)
-(* tangs the axial / tangential positions (the same for every segment in the model), voxels    *)
-(* 1..nvox, P[b][v] the matrix.                                                               *)
+(* Part 2.  Dense model.  sys = [c, axs, tangs, nvox, P, seq]: c a Subsets configuration, axs   *)
+(* and tangs the axial / tangential positions (the same for every segment in the model),       *)
+(* voxels 1..nvox, P[b][v] the matrix, seq an enumeration of Bins(sys) without repetition      *)
+(* (sums over bins run along it).                                                              *)
 Bins(sys) == { << vs, k, a, t >> : vs \in AllVS(sys.c), k \in Tofs(sys.c), a \in sys.axs, t \in sys.tangs }
 Voxels(sys) == 1 .. sys.nvox
 ZeroData(sys) == [b \in Bins(sys) |-> 0]
@@ -52,8 +53,7 @@ ZeroImage(sys) == [v \in Voxels(sys) |-> 0]
 
 RECURSIVE SumSeqTo(_, _)
 SumSeqTo(f, n) == IF n = 0 THEN 0 ELSE f[n] + SumSeqTo(f, n - 1)
-RECURSIVE SumOver(_, _)
-SumOver(f, S) == IF S = {} THEN 0 ELSE LET e == CHOOSE e \in S : TRUE IN f[e] + SumOver(f, S \ {e})
+SeqOk(sys) == Len(sys.seq) = Cardinality(Bins(sys)) /\ Range(sys.seq) = Bins(sys)
 
 \* ProjMatrixElemsForOneBin::forward_project: "single += density[coords] * element value" over the row
 RowDot(sys, b, x) == SumSeqTo([v \in Voxels(sys) |-> sys.P[b][v] * x[v]], sys.nvox)
@@ -108,8 +108,9 @@ DoGetOutput(sys, st) == [st EXCEPT !.out = st.acc]
 \* A restricted to the piece T: (A_T x)[b] = sum_v P[b][v] x[v] for b in T, 0 elsewhere
 Fwd(sys, T, x) == [b \in Bins(sys) |-> IF b \in T THEN RowDot(sys, b, x) ELSE 0]
 \* its transpose: (A_T^T y)[v] = sum_{b in T} P[b][v] y[b]
-Bck(sys, T, y) == [v \in Voxels(sys) |-> SumOver([b \in T |-> sys.P[b][v] * y[b]], T)]
-InnerD(sys, d1, d2) == SumOver([b \in Bins(sys) |-> d1[b] * d2[b]], Bins(sys))
+Bck(sys, T, y) == [v \in Voxels(sys) |->
+                     SumSeqTo([i \in 1 .. Len(sys.seq) |-> IF sys.seq[i] \in T THEN sys.P[sys.seq[i]][v] * y[sys.seq[i]] ELSE 0], Len(sys.seq))]
+InnerD(sys, d1, d2) == SumSeqTo([i \in 1 .. Len(sys.seq) |-> d1[sys.seq[i]] * d2[sys.seq[i]]], Len(sys.seq))
 InnerI(sys, i1, i2) == SumSeqTo([v \in Voxels(sys) |-> i1[v] * i2[v]], sys.nvox)
 AddD(sys, d1, d2) == [b \in Bins(sys) |-> d1[b] + d2[b]]
 AddI(sys, i1, i2) == [v \in Voxels(sys) |-> i1[v] + i2[v]]
